@@ -602,6 +602,16 @@ class _Gen(object):
                 self.emit(ind, 'tr(%d, %s)' % (self.slot(), self.iexpr(1)))
             elif form == 4:
                 F.add('subscript_store'); self.emit(ind, 'l[0] = %s' % self.iexpr(1))
+            elif form == 5 and self.loopdepth == 0 and r.random() < 0.4:
+                # in-place augmented assignment through a plain name bound to a mutable object that is aliased elsewhere
+                # (the caller's list argument; a second local name): `+=` must keep using __iadd__
+                F.add('inplace_augassign')
+                if r.random() < 0.5:
+                    self.emit(ind, 'l += [%s]' % self.iexpr(1))
+                else:
+                    self.emit(ind, 'm9 = l')
+                    self.emit(ind, 'm9 += [%s]' % self.iexpr(1))
+                    self.emit(ind, 'tr(%d, len(l), m9 is l)' % self.slot())
             elif form == 5 and self.loopdepth == 0:
                 F.add('method'); self.emit(ind, 'l.append(%s)' % self.iexpr(1))
             elif form == 5:
@@ -900,10 +910,13 @@ def raise_handler_space():
                         for fin in (False, True):
                             for loop in (False, True):
                                 out.append((hi, ho, r1, r2, r3, fin, loop))
+    # `kill` variants: every later write of x overwrites it WITHOUT reading it, so the value assigned right before a
+    # raise is kept alive only by the raise -> handler edges (inner handler not matching: the outer one reads it)
+    out += [t + (True,) for t in out if t[3] is None and t[0] != t[2]]
     return out
 
 
-def _raise_handler_program(hi, ho, r1, r2, r3, fin, loop):
+def _raise_handler_program(hi, ho, r1, r2, r3, fin, loop, kill=False):
     L = ['def f(a, b, c):', '    x = a', '    y = b']
     ind = '    '
     if loop:
@@ -913,16 +926,17 @@ def _raise_handler_program(hi, ho, r1, r2, r3, fin, loop):
           ind + '    try:',
           ind + '        x = tr(2, x)',
           ind + '        if d():',
+          ind + ('            x = tr(13)' if kill else '            x = tr(13, x)'),   # written inside the branch right before the raise, read by a handler
           ind + '            raise %s(tr(3))' % r1,
-          ind + '        x = tr(4, x)',
+          ind + ('        x = tr(4)' if kill else '        x = tr(4, x)'),
           ind + '    except %s:' % hi,
-          ind + '        x = tr(5, x)']
+          ind + ('        x = tr(5)' if kill else '        x = tr(5, x)')]
     if r2:
         L += [ind + '        if d():', ind + '            raise %s(tr(6))' % r2]
-    L += [ind + '    x = tr(7, x)']
+    L += [ind + ('    x = tr(7)' if kill else '    x = tr(7, x)')]
     if r3:
         L += [ind + '    if d():', ind + '        raise %s(tr(8))' % r3]
-    L += [ind + '    x = tr(9, x)']
+    L += [ind + ('    x = tr(9)' if kill else '    x = tr(9, x)')]
     if ho == 'E1E2':
         L += [ind + 'except E1:', ind + '    y = tr(10, x)', ind + 'except E2:', ind + '    y = tr(11, x, y)']
     else:
